@@ -486,7 +486,9 @@ def install_free_monitor():
     detector, hence a separate pass.  Returns the (live) list of events."""
     from .load import load
     pa = load()
+    global _FREE_EVENTS
     events = []
+    _FREE_EVENTS = events
     main = threading.main_thread()
     keep = []
     creators = {}
@@ -544,3 +546,177 @@ def install_free_monitor():
     watch(AbstractDissimilarity)
     watch(pa.AbstractContinuumSampler)
     return events
+
+
+# --------------------------------------------------------------------------- shared containers
+
+_FREE_EVENTS = None  # set by install_free_monitor(): list receiving events of the free-running pass
+_FREE_WRITERS = {}
+
+
+def _container_access(obj, what, write):
+    """Called by traced containers.  Under the scheduler: a visible operation of a job thread (scheduling point)
+    and, for writes, an entry for the happens-before monitor.  Free-running: remember which threads wrote."""
+    s = active()
+    if s is not None and not s.abort:
+        me = s.me()
+        if write and me is not None and me != "main":
+            # writes of a job thread to a shared container are visible operations; reads are not scheduling points
+            # (they would multiply the schedule space by the number of look-ups) - a limitation stated in DESIGN
+            s.visible(f"{what}")
+            s.record_write(obj, what)
+        return
+    if _FREE_EVENTS is not None and write:
+        me = threading.get_ident()
+        ws = _FREE_WRITERS.setdefault(id(obj), set())
+        ws.add(me)
+        if len(ws) > 1 or (threading.current_thread() is not threading.main_thread() and len(ws) >= 1 and
+                           any(w != me for w in ws)):
+            _FREE_EVENTS.append(f"shared container ({what}) written by {len(ws)} different threads")
+
+
+class TracedDict(dict):
+    """A dict held by a shared object (dissimilarity, sampler): every access from a job thread is visible."""
+    def __setitem__(self, k, v):
+        _container_access(self, "dict[...] =", True)
+        return dict.__setitem__(self, k, v)
+
+    def __delitem__(self, k):
+        _container_access(self, "del dict[...]", True)
+        return dict.__delitem__(self, k)
+
+    def setdefault(self, k, default=None):
+        _container_access(self, "dict.setdefault", True)
+        return dict.setdefault(self, k, default)
+
+    def update(self, *a, **k):
+        _container_access(self, "dict.update", True)
+        return dict.update(self, *a, **k)
+
+    def pop(self, *a):
+        _container_access(self, "dict.pop", True)
+        return dict.pop(self, *a)
+
+    def clear(self):
+        _container_access(self, "dict.clear", True)
+        return dict.clear(self)
+
+    def __getitem__(self, k):
+        _container_access(self, "dict[...]", False)
+        return dict.__getitem__(self, k)
+
+    def get(self, k, default=None):
+        _container_access(self, "dict.get", False)
+        return dict.get(self, k, default)
+
+    def __contains__(self, k):
+        _container_access(self, "in dict", False)
+        return dict.__contains__(self, k)
+
+    def __len__(self):
+        _container_access(self, "len(dict)", False)
+        return dict.__len__(self)
+
+
+class TracedList(list):
+    def append(self, x):
+        _container_access(self, "list.append", True)
+        return list.append(self, x)
+
+    def extend(self, x):
+        _container_access(self, "list.extend", True)
+        return list.extend(self, x)
+
+    def insert(self, i, x):
+        _container_access(self, "list.insert", True)
+        return list.insert(self, i, x)
+
+    def pop(self, *a):
+        _container_access(self, "list.pop", True)
+        return list.pop(self, *a)
+
+    def remove(self, x):
+        _container_access(self, "list.remove", True)
+        return list.remove(self, x)
+
+    def clear(self):
+        _container_access(self, "list.clear", True)
+        return list.clear(self)
+
+    def __setitem__(self, i, v):
+        _container_access(self, "list[...] =", True)
+        return list.__setitem__(self, i, v)
+
+    def __len__(self):
+        _container_access(self, "len(list)", False)
+        return list.__len__(self)
+
+
+class TracedSet(set):
+    def add(self, x):
+        _container_access(self, "set.add", True)
+        return set.add(self, x)
+
+    def discard(self, x):
+        _container_access(self, "set.discard", True)
+        return set.discard(self, x)
+
+    def remove(self, x):
+        _container_access(self, "set.remove", True)
+        return set.remove(self, x)
+
+    def update(self, *a):
+        _container_access(self, "set.update", True)
+        return set.update(self, *a)
+
+    def clear(self):
+        _container_access(self, "set.clear", True)
+        return set.clear(self)
+
+    def __contains__(self, x):
+        _container_access(self, "in set", False)
+        return set.__contains__(self, x)
+
+
+def trace_containers(obj, _depth=0):
+    """Replace the plain dict / list / set attributes of a shared object (and of the dissimilarities nested in it)
+    by traced equivalents with the same content.  Idempotent; called by the C06 drivers on the dissimilarity and
+    the sampler before every execution (objects a job creates for itself are not touched)."""
+    if obj is None or _depth > 3 or not hasattr(obj, "__dict__"):
+        return obj
+    # process-level state must not leak from one execution into the next: the content each traced container had
+    # when it was first seen (i.e. as constructed) is restored before every execution
+    pristine = vars(obj).get("_verif_pristine")
+    if pristine is not None:
+        for k, content in pristine.items():
+            cur = vars(obj).get(k)
+            if isinstance(cur, TracedDict):
+                dict.clear(cur)
+                dict.update(cur, content)
+            elif isinstance(cur, TracedList):
+                list.clear(cur)
+                list.extend(cur, content)
+            elif isinstance(cur, TracedSet):
+                set.clear(cur)
+                set.update(cur, content)
+    else:
+        object.__setattr__(obj, "_verif_pristine", {})
+        pristine = vars(obj)["_verif_pristine"]
+    for k, v in list(vars(obj).items()):
+        new = None
+        if k == "_verif_pristine":
+            continue
+        if type(v) in (dict, list, set):
+            import copy
+            pristine[k] = copy.copy(v)
+        if type(v) is dict:
+            new = TracedDict(v)
+        elif type(v) is list:
+            new = TracedList(v)
+        elif type(v) is set:
+            new = TracedSet(v)
+        elif hasattr(v, "d_mat") and hasattr(v, "delta_empty"):
+            trace_containers(v, _depth + 1)
+        if new is not None:
+            object.__setattr__(obj, k, new)
+    return obj
